@@ -54,9 +54,13 @@ def rfc6979Loop : Nat → Bytes → Bytes → Nat → Nat
     let v := hmac k v
     rfc6979Loop fuel k v iter
 
-/-- decred `NonceRFC6979(privKey, hash, extra, nil, iter)` for 32-byte privKey / hash, extra = 32 bytes or empty. -/
-def nonceRFC6979 (priv hash extra : Bytes) (iter : Nat) : Nat :=
-  let key := priv ++ hash ++ (if extra.length = 32 then extra else [])
+/-- decred `NonceRFC6979(privKey, hash, extra, version, iter)` for 32-byte privKey / hash; `extra` counts only
+    when 32 bytes long, `version` only when 16 bytes long (a version without extra data is preceded by 32
+    zero bytes). -/
+def nonceRFC6979 (priv hash extra : Bytes) (iter : Nat) (version : Bytes := []) : Nat :=
+  let key := priv ++ hash ++
+    (if extra.length = 32 then extra ++ (if version.length = 16 then version else [])
+     else if version.length = 16 then List.replicate 32 (0 : UInt8) ++ version else [])
   let v := List.replicate 32 (1 : UInt8)
   let k := List.replicate 32 (0 : UInt8)
   let k := hmac k (v ++ [0] ++ key)
